@@ -158,8 +158,12 @@ def trio_mint_differs(reals, scs, kinds):
     if real.get('outcome') != 'ok': return False
     st = {bytes.fromhex(k).decode('latin1'): v for k, v in sc['storage']}
     cfg = st['config']
-    if cfg['initial_amp'] != cfg['future_amp']: return False          # candidates use a settled ramp
-    amp = cfg['future_amp']; f = [int(a['amount']) for a in st['collected_protocol_fees']]
+    # the amplification in force at the block of the call: the documented linear interpolation between the stored ramp end points (C04.amp.linear)
+    ia, fa, ib, fb, h = cfg['initial_amp'], cfg['future_amp'], cfg['initial_amp_block'], cfg['future_amp_block'], sc['env']['height']
+    if h >= fb or fb <= ib or h < ib: amp = fa if h >= fb else ia
+    elif fa >= ia: amp = ia + (fa - ia) * (h - ib) // (fb - ib)
+    else: amp = ia - (ia - fa) * (h - ib) // (fb - ib)
+    f = [int(a['amount']) for a in st['collected_protocol_fees']]
     bal = []
     for i, k in enumerate(kinds):
         if k == 'native': bal.append([int(x[2]) for x in sc['bank'] if x[0] == TRIO and x[1] == TNAMES['native'][i]][0])
@@ -214,9 +218,11 @@ def mint_shell(ck, prog, kinds):
                 if shape:
                     D0 = D3(*inv5, R[0], R[1], R[2]); D1 = D3(*inv5, R[0] + d[0], R[1] + d[1], R[2] + d[2])
                     m = mints[0].amount
-                    nice = [z3.Int('b%d' % i) == 10 ** 12 + (10 ** 11 if kinds[i] == 'native' else 0) for i in range(3)] + [z3.Int('f%d' % i) == 10 ** 9 for i in range(3)] + \
-                           [z3.Int('d%d' % i) == 10 ** 11 for i in range(3)] + [z3.Int('at%d' % i) == 5 * 10 ** 10 for i in range(3)] + \
-                           [z3.Int('S') == 3 * 10 ** 12, z3.Int('initial_amp') == 100, z3.Int('future_amp') == 100, z3.Int('initial_amp_block') == 1, z3.Int('future_amp_block') == 2, z3.Int('height') == 12345]
+                    # candidate for the native confirmation: an unbalanced deposit made 20% into a ramp 10 -> 100 (amplification in force: 28)
+                    dn = [4 * 10 ** 12, 1, 1]
+                    nice = [z3.Int('b%d' % i) == 10 ** 12 + 10 ** 9 + (dn[i] if kinds[i] == 'native' else 0) for i in range(3)] + [z3.Int('f%d' % i) == 10 ** 9 for i in range(3)] + \
+                           [z3.Int('d%d' % i) == dn[i] for i in range(3)] + [z3.Int('at%d' % i) == 5 * 10 ** 10 for i in range(3)] + \
+                           [z3.Int('S') == 3 * 10 ** 12, z3.Int('initial_amp') == 10, z3.Int('future_amp') == 100, z3.Int('initial_amp_block') == 1000, z3.Int('future_amp_block') == 2000, z3.Int('height') == 1200]
                     kw = dict(native_pred=lambda reals, scs, kinds=kinds: trio_mint_differs(reals, scs, kinds), nice=nice)
                     ck.oblige('C04.mint.next.' + tag, p, z3.Or(m * D0 > S * (D1 - D0), D1 <= D0), 'mint <= S*(D1-D0)/D0 with D over reserves net of pending fees and of the credited deposit; nothing minted unless D grows', **kw)
                     ck.oblige('C04.mint.next.lp_value.' + tag, p, D1 * S < D0 * (S + m), 'D (as the pool computes it) per LP token does not fall on deposit', **kw)
